@@ -52,16 +52,12 @@ Definition set_pst_none (s : S) : S :=
       (r_lod0 s) (r_lod1 s) (r_csel s) (r_nsel s) (r_disabled s) 0 (r_psx s) (r_psy s) (r_paint s)
       (r_creg s) (r_nreg s) (z_penx s) (z_peny s) (z_firstx s) (z_firsty s) (r_log s).
 
-(* AbsArcTo (the renderer is not disabled) *)
-Definition abs_arc (s : S) (rx ry rot : f32) (large sweep : bool) (x y : f32) : S :=
-  let s := set_pst_none s in
-  let Rx := dabs (to64 rx) in
-  let Ry := dabs (to64 ry) in
-  if negb (fgt F64 Rx d0 && fgt F64 Ry d0) then
-    emit_keep N32 s (RLineTo (absX N32 s x) (absY N32 s y))
-  else
-    let x1 := to64 (unabsX N32 s (z_penx s)) in
-    let y1 := to64 (unabsY N32 s (z_peny s)) in
+(* the centre parameterisation of AbsArcTo: a pure function of the pen (in viewBox space) and the arguments.
+   Returns (n, cx, cy, theta1, deltaTheta, Rx, Ry, cosPhi, sinPhi). *)
+Record arcp := mkArcP { ap_n : Z; ap_cx : Z; ap_cy : Z; ap_t1 : Z; ap_dt : Z; ap_rx : Z; ap_ry : Z; ap_cos : Z; ap_sin : Z }.
+
+Definition arc_params (x1 y1 : Z) (Rx0 Ry0 : Z) (rot : f32) (large sweep : bool) (x y : f32) : arcp :=
+    let Rx := Rx0 in let Ry := Ry0 in
     let x2 := to64 x in
     let y2 := to64 y in
     let phi := dmul k_twopi (to64 rot) in
@@ -102,7 +98,20 @@ Definition abs_arc (s : S) (rx ry rot : f32) (large sweep : bool) (x y : f32) : 
     let n := match ftrunc F64 (fceil F64 (ddiv (dabs dtheta) k_segAngle)) with
              | Some i => if (0 <? i) && (i <? 1000) then i else 0
              | None => 0 end in
-    arc_loop (Z.to_nat n) 0 n s cx cy theta1 dtheta Rx Ry cosphi sinphi.
+    mkArcP n cx cy theta1 dtheta Rx Ry cosphi sinphi.
+
+(* AbsArcTo (the renderer is not disabled) *)
+Definition abs_arc (s : S) (rx ry rot : f32) (large sweep : bool) (x y : f32) : S :=
+  let s := set_pst_none s in
+  let Rx := dabs (to64 rx) in
+  let Ry := dabs (to64 ry) in
+  if negb (fgt F64 Rx d0 && fgt F64 Ry d0) then
+    emit_keep N32 s (RLineTo (absX N32 s x) (absY N32 s y))
+  else
+    let x1 := to64 (unabsX N32 s (z_penx s)) in
+    let y1 := to64 (unabsY N32 s (z_peny s)) in
+    let p := arc_params x1 y1 Rx Ry rot large sweep x y in
+    arc_loop (Z.to_nat (ap_n p)) 0 (ap_n p) s (ap_cx p) (ap_cy p) (ap_t1 p) (ap_dt p) (ap_rx p) (ap_ry p) (ap_cos p) (ap_sin p).
 
 (* RelArcTo: ax, ay := relVec2(x, y); AbsArcTo(..., unabsX(ax), unabsY(ay)) — evaluated also when disabled,
    but then without effect *)
